@@ -98,8 +98,11 @@ TEXT = {
           "beneficiary fused total equals the sum of its fusion entries, each withdrawal pays only the recorded owner, only "
           "after the lock matured, exactly the recorded amount, and the same withdrawal cannot pay twice. Tied to the tree by "
           "the contract stream (real node, every receive predicted, storage compared after each momentum; htlc secrets "
-          "with lengths around KeyMaxSize, 255/256/257 and k*256+j presented against their real digest) and model-free "
-          "monitors on the real storage and blocks.",
+          "with lengths around KeyMaxSize, 255/256/257 and k*256+j presented against their real digest; every Allow/Deny "
+          "history of the htlc proxy flag up to length 4 followed by a proxy unlock and an own unlock, the flag read back "
+          "through the RPC and the storage getter = the last call; bridge unwrap requests with amounts up to 2^256-1 and "
+          "signatures made for a request that differs in one field from the presented one, judged by the harness's own "
+          "encoding of the signed message) and model-free monitors on the real storage and blocks.",
   "design_ref": "§3 C10",
   "note": "Reward bookkeeping, liquidity reward pools, bridge wrap/fees/administration are outside the models (observed "
           "outcomes only); lock periods are parameters (theorems hold for all values, production values regenerated from "
